@@ -731,10 +731,371 @@ theorem selA_spec (w : World) (f : Filter) (rels : List RelID) :
             exact ⟨selA' ++ sel', by simp [h1, g1], by simp [g2, h2]⟩
         · have hrel' : (w.arch a).hasRelations = false := by simpa using hrel
           simp only [hrel', Bool.not_false, if_true, Option.some.injEq] at hx ⊢
-          exact ⟨_ :: sel', by simp [h1, ← hx], by simp [h2]⟩
+          exact ⟨(w.arch a).tables.tables.getD 0 0 :: sel', by simp [h1, ← hx], by simp [h2]⟩
       · have hmask' : f.matchesMask (w.arch a).mask = false := by simpa using hmask
         simp only [hmask', Bool.not_false, if_true, Option.some.injEq] at hx ⊢
         exact ⟨sel', by simp [h1, ← hx], h2⟩
+
+/-! ## Main theorem, pure level -/
+
+theorem Fresh.inv {q : QueryObj} (hf : Fresh q) : Inv q :=
+  ⟨by rw [hf.table]; omega, by rw [hf.archetype]; omega, fun _ => hf.tables,
+   fun h => by rw [hf.maxIndex] at h; omega⟩
+
+/-- the rows a freshly opened query still yields are the rows of the selected tables -/
+theorem remaining_fresh (w : World) (q : QueryObj) (ts : List Nat) (hf : Fresh q)
+    (hsel : qSelected w q = some ts) : remaining w q = some (ts.flatMap (rowsOf w)) := by
+  have hcr : curRows q = [] := curRows_done q (by rw [hf.index, hf.maxIndex]; omega)
+  rw [qSelected_eq] at hsel
+  simp only [remaining, hcr, hf.table, hf.archetype, hf.tables]
+  cases hc : q.cacheTables with
+  | some ts0 =>
+    simp only [hc] at hsel ⊢
+    obtain ⟨sel, h1, h2⟩ := selC_spec w q.rels ts0 [] ts hsel
+    simp only [List.nil_append] at h1
+    subst h1
+    simpa using h2
+  | none =>
+    simp only [hc] at hsel ⊢
+    obtain ⟨sel, h1, h2⟩ := selA_spec w q.filter q.rels _ [] ts hsel
+    simp only [List.nil_append] at h1
+    subst h1
+    simp [scanRows, h2]
+
+/-- **drain_rows**, full form: from a freshly opened query, on an unchanged world, if the
+    counting walk selects `ts` (no runtime panic), then iterating `Next` yields exactly the rows
+    of `ts` in order (empty tables contribute nothing), then reports `false`; the final cursor
+    differs from `q` only in cursor fields and is not yet closed.  Any fuel exceeding the number
+    of rows is enough. -/
+theorem drain_rows_aux (w : World) (q : QueryObj) (ts : List Nat) (fuel : Nat) (hf : Fresh q)
+    (hsel : qSelected w q = some ts) (hfuel : (ts.flatMap (rowsOf w)).length < fuel) :
+    ∃ qf, drainPureAux w q fuel = some (qf, true, ts.flatMap (rowsOf w)) ∧ Frame q qf ∧
+      -1 ≤ qf.table :=
+  drainAux_of_remaining w _ q fuel hf.inv (remaining_fresh w q ts hf hsel) hfuel
+
+theorem drain_rows_of_fuel (w : World) (q : QueryObj) (ts : List Nat) (fuel : Nat) (hf : Fresh q)
+    (hsel : qSelected w q = some ts) (hfuel : (ts.flatMap (rowsOf w)).length < fuel) :
+    drainPure w q fuel = expected w q := by
+  obtain ⟨qf, h, _⟩ := drain_rows_aux w q ts fuel hf hsel hfuel
+  simp [drainPure, expected, h, hsel]
+
+/-! ## Fuel: `drainFuel w` is enough when the selected tables are pairwise distinct -/
+
+theorem foldl_add_eq_sum (l : List Nat) : l.foldl (· + ·) 0 = l.sum := List.sum_eq_foldl.symm
+
+theorem flatMap_rowsOf_length (w : World) (ts : List Nat) :
+    (ts.flatMap (rowsOf w)).length = (ts.map fun t => (w.tbl t).len).sum := by
+  simp [List.length_flatMap, rowsOf_length]
+
+theorem sum_set_zero : ∀ (L : List Nat) (t : Nat), (L.set t 0).sum + L.getD t 0 = L.sum := by
+  intro L
+  induction L with
+  | nil => intro t; simp
+  | cons x L ih =>
+    intro t
+    cases t with
+    | zero => simp; omega
+    | succ t =>
+      have := ih t
+      simp only [List.set_cons_succ, List.sum_cons, List.getD_cons_succ]
+      omega
+
+theorem sum_getD_le_of_nodup : ∀ (ts : List Nat) (L : List Nat), ts.Nodup →
+    (ts.map fun t => L.getD t 0).sum ≤ L.sum := by
+  intro ts
+  induction ts with
+  | nil => intro L _; simp
+  | cons t ts ih =>
+    intro L hnd
+    obtain ⟨hnot, hnd'⟩ := List.nodup_cons.mp hnd
+    have h1 := ih (L.set t 0) hnd'
+    have h2 : (ts.map fun s => (L.set t 0).getD s 0) = ts.map fun s => L.getD s 0 := by
+      apply List.map_congr_left
+      intro s hs
+      have : t ≠ s := fun e => hnot (e ▸ hs)
+      simp [List.getD_eq_getElem?_getD, List.getElem?_set_ne this]
+    rw [h2] at h1
+    have h3 := sum_set_zero L t
+    simp only [List.map_cons, List.sum_cons]
+    omega
+
+theorem rows_lt_drainFuel (w : World) (ts : List Nat) (hnd : ts.Nodup) :
+    (ts.flatMap (rowsOf w)).length < drainFuel w := by
+  rw [flatMap_rowsOf_length]
+  have h := sum_getD_le_of_nodup ts (w.tables.map (·.len)) hnd
+  have e : (ts.map fun t => (w.tables.map (·.len)).getD t 0) = ts.map fun t => (w.tbl t).len := by
+    apply List.map_congr_left
+    intro t _
+    simp only [World.tbl, List.getD_eq_getElem?_getD, List.getElem?_map]
+    cases w.tables[t]? <;> rfl
+  rw [e] at h
+  simp only [drainFuel, foldl_add_eq_sum]
+  omega
+
+/-- **drain_rows** with the model's fuel.  The statement with `fuel ≥ drainFuel w` alone is
+    false for arbitrary worlds (a table list with repetitions yields more rows than
+    `drainFuel w` allows, see `drainFuel_counterexample` in `Ark.Props.C03Drain`); it holds when
+    the selected tables are pairwise distinct. -/
+theorem drain_rows_partial (w : World) (q : QueryObj) (ts : List Nat) (fuel : Nat) (hf : Fresh q)
+    (hsel : qSelected w q = some ts) (hnd : ts.Nodup) (hfuel : drainFuel w ≤ fuel) :
+    drainPure w q fuel = expected w q :=
+  drain_rows_of_fuel w q ts fuel hf hsel (Nat.lt_of_lt_of_le (rows_lt_drainFuel w ts hnd) hfuel)
+
+/-! ## `Count` and `EntityAt` -/
+
+/-- `Count` equals the number of rows visited -/
+theorem count_eq_visits (w : World) (q : QueryObj) (n : Nat) (h : qCount w q = some n) :
+    ∃ rows, expected w q = some rows ∧ rows.length = n := by
+  simp only [qCount, Option.map_eq_some_iff] at h
+  obtain ⟨ts, hts, rfl⟩ := h
+  exact ⟨ts.flatMap (rowsOf w), by simp [expected, hts],
+    by rw [flatMap_rowsOf_length, foldl_add_eq_sum]⟩
+
+theorem entityAt_go (w : World) (i : Nat) : ∀ (ts : List Nat) (count : Nat), count ≤ i →
+    qEntityAt.go w i count ts =
+      ((ts.flatMap (rowsOf w))[i - count]?).map (fun p => (w.tbl p.1).getEntity p.2) := by
+  intro ts
+  induction ts with
+  | nil => intro count _; simp [qEntityAt.go]
+  | cons t rest ih =>
+    intro count hle
+    simp only [qEntityAt.go, List.flatMap_cons]
+    by_cases h : count + (w.tbl t).len > i
+    · have hlt : i - count < (rowsOf w t).length := by rw [rowsOf_length]; omega
+      simp only [h, if_true]
+      rw [List.getElem?_append_left hlt]
+      have hlt' : i - count < (w.tbl t).len := by omega
+      simp [rowsOf, hlt']
+    · have hge : (rowsOf w t).length ≤ i - count := by rw [rowsOf_length]; omega
+      simp only [h, if_false]
+      rw [ih _ (by omega), List.getElem?_append_right hge, rowsOf_length]
+      congr 2
+      omega
+
+/-- `EntityAt(i)` is the entity at the `i`-th visited row, and the out-of-bounds panic
+    (`some none`) when there is no such row -/
+theorem entityAt_eq (w : World) (q : QueryObj) (i : Nat) :
+    qEntityAt w q i =
+      (expected w q).map fun rows => (rows[i]?).map fun p => (w.tbl p.1).getEntity p.2 := by
+  simp only [qEntityAt, expected, Option.map_map]
+  congr 1
+  funext ts
+  simpa using entityAt_go w i ts 0 (Nat.zero_le _)
+
+theorem entityAt_eq_visit (w : World) (q : QueryObj) (rows : List (Nat × Nat)) (i : Nat)
+    (hrows : expected w q = some rows) :
+    (∀ (h : i < rows.length),
+        qEntityAt w q i = some (some ((w.tbl rows[i].1).getEntity rows[i].2))) ∧
+    (rows.length ≤ i → qEntityAt w q i = some none) := by
+  rw [entityAt_eq, hrows]
+  constructor
+  · intro h; simp [h]
+  · intro h; simp [h]
+
+/-! ## Monadic level: `qNext`, `drainFrom` -/
+
+
+theorem qNext_eq (q : QueryObj) (w : World) :
+    qNext q w = match qNextPure w q with
+      | none => if q.table < -1 then .panic .queryDone w else .panic .runtime w
+      | some (q', true) => .ok (q', true) w
+      | some (q', false) =>
+        match qClose q' w with
+        | .ok q'' w' => .ok (q'', false) w'
+        | .panic k w' => .panic k w' := by
+  unfold qNext qNextPure
+  by_cases h1 : q.table < -1
+  · simp [h1]
+  · by_cases h2 : (q.index : Int) < q.maxIndex
+    · simp [h1, h2]
+    · simp only [h1, h2, if_false, M.bind_apply, M.get_apply]
+      cases q.cacheTables with
+      | some ts =>
+        simp only []
+        rcases w.qNextTable q ts with _ | ⟨q1, _ | _⟩ <;> simp
+        cases qClose q1 w <;> rfl
+      | none =>
+        simp only []
+        generalize (if q.archetype ≥ 0 then w.qNextTable q q.tables else some (q, false)) = r1
+        rcases r1 with _ | ⟨q1, _ | _⟩
+        · simp
+        · simp only []
+          rcases w.qNextArchetype q1 with _ | ⟨q2, _ | _⟩ <;> simp
+          cases qClose q2 w <;> rfl
+        · simp
+
+/-- the cursor after `Close` -/
+def closed (q : QueryObj) : QueryObj :=
+  { q with archetype := -2, table := -2, tables := [], cur := none, cacheTables := none }
+
+theorem qClose_ok (q : QueryObj) (w : World) (l' : Lock) (h : -1 ≤ q.table)
+    (hl : w.locks.unlock q.lockBit = some l') :
+    qClose q w = .ok (closed q) { w with locks := l' } := by
+  have h1 : ¬ q.table < -1 := by omega
+  simp [qClose, h1, unlock, hl, closed]
+
+theorem drainFrom_true (q q' : QueryObj) (w : World) (fuel : Nat)
+    (h : qNext q w = .ok (q', true) w) :
+    drainFrom q (fuel + 1) w =
+      match drainFrom q' fuel w with
+      | .ok (qf, rest) w' =>
+        .ok (qf, { e := (qEntity w q').getD Ent.zero, table := q'.cur.getD 0, row := q'.index } :: rest) w'
+      | .panic k w' => .panic k w' := by
+  simp [drainFrom, h]
+  cases drainFrom q' fuel w <;> rfl
+
+theorem drainFrom_false (q q' : QueryObj) (w w' : World) (fuel : Nat)
+    (h : qNext q w = .ok (q', false) w') :
+    drainFrom q (fuel + 1) w = .ok (q', []) w' := by
+  simp [drainFrom, h]
+
+theorem qEntity_at (w : World) (q : QueryObj) (t : Nat) (h1 : 0 ≤ q.table) (h2 : q.cur = some t) :
+    qEntity w q = some ((w.tbl t).getEntity q.index) := by
+  have : ¬ q.table < 0 := by omega
+  simp [qEntity, this, h2]
+
+theorem drainFrom_of_remaining (w : World) (l' : Lock) :
+    ∀ (rows : List (Nat × Nat)) (q : QueryObj) (fuel : Nat), Inv q → remaining w q = some rows →
+      rows.length < fuel → w.locks.unlock q.lockBit = some l' →
+      ∃ qf visits, drainFrom q fuel w = .ok (closed qf, visits) { w with locks := l' } ∧
+        Frame q qf ∧ visits.map (fun v => (v.table, v.row)) = rows ∧
+        visits.map (·.e) = rows.map (fun p => (w.tbl p.1).getEntity p.2) := by
+  intro rows
+  induction rows with
+  | nil =>
+    intro q fuel hinv hrem hfuel hl
+    obtain ⟨f, rfl⟩ : ∃ f, fuel = f + 1 := ⟨fuel - 1, by simp at hfuel; omega⟩
+    obtain ⟨q', h1, h2, h3⟩ := step w q [] hinv hrem
+    have hn : qNext q w = .ok (closed q', false) { w with locks := l' } := by
+      rw [qNext_eq, h1]
+      simp only []
+      rw [qClose_ok q' w l' h3 (by rw [h2.lockBit]; exact hl)]
+    exact ⟨q', [], drainFrom_false q _ w _ f hn, h2, rfl, rfl⟩
+  | cons r rs ih =>
+    intro q fuel hinv hrem hfuel hl
+    obtain ⟨f, rfl⟩ : ∃ f, fuel = f + 1 := ⟨fuel - 1, by simp at hfuel; omega⟩
+    obtain ⟨q', h1, h2, h3, h4, h5, h6, h7⟩ := step w q (r :: rs) hinv hrem
+    have hn : qNext q w = .ok (q', true) w := by rw [qNext_eq, h1]
+    obtain ⟨qf, visits, g1, g2, g3, g4⟩ :=
+      ih q' f h3 h7 (by simp at hfuel; omega) (by rw [h2.lockBit]; exact hl)
+    refine ⟨qf, { e := (qEntity w q').getD Ent.zero, table := q'.cur.getD 0, row := q'.index }
+      :: visits, ?_, h2.trans g2, ?_, ?_⟩
+    · rw [drainFrom_true q q' w f hn, g1]
+    · simp [g3, h5, h6]
+    · simp [g4, qEntity_at w q' r.1 h4 h5, h6]
+
+/-- **Monadic drain**: on a world where the query's lock bit is held (so the final `Close`
+    succeeds), iterating the model's `Next` to exhaustion visits exactly the expected rows, reports
+    the entities stored there, and changes nothing in the world but the lock. -/
+theorem drainFrom_rows_of_fuel (w : World) (q : QueryObj) (ts : List Nat) (l' : Lock) (fuel : Nat)
+    (hf : Fresh q) (hsel : qSelected w q = some ts)
+    (hl : w.locks.unlock q.lockBit = some l')
+    (hfuel : (ts.flatMap (rowsOf w)).length < fuel) :
+    ∃ qf visits, drainFrom q fuel w = .ok (closed qf, visits) { w with locks := l' } ∧
+      Frame q qf ∧
+      visits.map (fun v => (v.table, v.row)) = ts.flatMap (rowsOf w) ∧
+      visits.map (·.e) = (ts.flatMap (rowsOf w)).map (fun p => (w.tbl p.1).getEntity p.2) :=
+  drainFrom_of_remaining w l' _ q fuel hf.inv (remaining_fresh w q ts hf hsel) hfuel hl
+
+/-- the same with the model's fuel `drainFuel w`, for pairwise distinct selected tables -/
+theorem drainFrom_rows (w : World) (q : QueryObj) (ts : List Nat) (l' : Lock)
+    (hf : Fresh q) (hsel : qSelected w q = some ts) (hnd : ts.Nodup)
+    (hl : w.locks.unlock q.lockBit = some l') :
+    ∃ qf visits, drainFrom q (drainFuel w) w = .ok (closed qf, visits) { w with locks := l' } ∧
+      Frame q qf ∧
+      visits.map (fun v => (v.table, v.row)) = ts.flatMap (rowsOf w) ∧
+      visits.map (·.e) = (ts.flatMap (rowsOf w)).map (fun p => (w.tbl p.1).getEntity p.2) :=
+  drainFrom_rows_of_fuel w q ts l' _ hf hsel hl (rows_lt_drainFuel w ts hnd)
+
+/-! ## Every row exactly once -/
+
+theorem rows_nodup (w : World) (ts : List Nat) (hnd : ts.Nodup) :
+    (ts.flatMap (rowsOf w)).Nodup := by
+  induction ts with
+  | nil => simp
+  | cons t rest ih =>
+    obtain ⟨hnot, hnd'⟩ := List.nodup_cons.mp hnd
+    rw [List.flatMap_cons, List.nodup_append]
+    refine ⟨?_, ih hnd', ?_⟩
+    · unfold rowsOf
+      refine List.Pairwise.map _ ?_ (List.nodup_range (n := (w.tbl t).len))
+      intro a b hab h
+      exact hab (by injection h)
+    · intro a ha b hb hab
+      subst hab
+      simp only [rowsOf, List.mem_map, List.mem_flatMap] at ha hb
+      obtain ⟨_, _, rfl⟩ := ha
+      obtain ⟨t', ht', _, _, h⟩ := hb
+      injection h with h1 _
+      exact hnot (h1 ▸ ht')
+
+/-! ## `drain` = open + iterate + close -/
+
+
+theorem lock_tail (f : Nat → QueryObj) (hf : ∀ b, Fresh (f b)) (s w1 : World) (q : QueryObj)
+    (h : (lock >>= fun b => (pure (f b) : W QueryObj)) s = .ok q w1) : Fresh q := by
+  simp only [M.bind_apply, M.pure_apply, lock] at h
+  cases hl : s.locks.lock with
+  | none => simp [hl] at h
+  | some p =>
+    obtain ⟨l, b⟩ := p
+    simp only [hl, Res.ok.injEq] at h
+    exact h.1 ▸ hf b
+
+theorem qOpen_fresh (fo : FilterObj) (extra : List RelID) (w w1 : World) (q : QueryObj)
+    (h : qOpen fo extra w = .ok q w1) : Fresh q := by
+  have tail : ∀ (ct : Option (List Nat)) (rare : Option Comp) (s : World),
+      (lock >>= fun b => (pure
+        { filter := fo.filter, rels := effRels fo extra, cacheTables := ct, rare := rare, lockBit := b } :
+          W QueryObj)) s = .ok q w1 → Fresh q :=
+    fun ct rare s hh => lock_tail _ (fun b => ⟨rfl, rfl, rfl, rfl, rfl, rfl⟩) s w1 q hh
+  unfold qOpen at h
+  cases ht : fo.typed with
+  | false =>
+    simp only [ht, Bool.false_eq_true, if_false, M.bind_apply, M.get_apply] at h
+    cases hc : fo.cache with
+    | none =>
+      simp only [hc] at h
+      exact tail _ _ _ h
+    | some id =>
+      simp only [hc] at h
+      cases hce : w.cacheEntry? id with
+      | none => simp [hce] at h
+      | some ce =>
+        simp only [hce] at h
+        exact tail _ _ _ h
+  | true =>
+    simp only [ht, if_true, M.bind_apply, M.get_apply] at h
+    cases hp : preCheckTyped fo.filter.mask extra w with
+    | panic k s => simp [hp] at h
+    | ok u s =>
+      simp only [hp] at h
+      cases hc : fo.cache with
+      | none =>
+        simp only [hc] at h
+        exact tail _ _ _ h
+      | some id =>
+        simp only [hc] at h
+        cases hce : s.cacheEntry? id with
+        | none => simp [hce] at h
+        | some ce =>
+          simp only [hce] at h
+          exact tail _ _ _ h
+
+/-- **Monadic drain, complete operation**: if opening succeeds (yielding `q` on the locked world
+    `w1`), the counting walk selects pairwise distinct tables `ts` and the lock bit taken by
+    `qOpen` can be released, then `drain` returns exactly the rows of `ts` with their entities,
+    and the only difference between `w1` and the final world is the lock. -/
+theorem drain_rows_monadic (fo : FilterObj) (extra : List RelID) (w w1 : World) (q : QueryObj)
+    (ts : List Nat) (l' : Lock) (ho : qOpen fo extra w = .ok q w1)
+    (hsel : qSelected w1 q = some ts) (hnd : ts.Nodup)
+    (hl : w1.locks.unlock q.lockBit = some l') :
+    ∃ visits, drain fo extra w = .ok visits { w1 with locks := l' } ∧
+      visits.map (fun v => (v.table, v.row)) = ts.flatMap (rowsOf w1) ∧
+      visits.map (·.e) = (ts.flatMap (rowsOf w1)).map (fun p => (w1.tbl p.1).getEntity p.2) := by
+  obtain ⟨qf, visits, h1, _, h3, h4⟩ :=
+    drainFrom_rows w1 q ts l' (qOpen_fresh fo extra w w1 q ho) hsel hnd hl
+  exact ⟨visits, by simp [drain, ho, h1], h3, h4⟩
 
 end Drain
 end Ark
